@@ -1,7 +1,7 @@
 (** C15 — options resolve per field: run time over benchmark over innermost group.
     Statements only; each closed by [exact] of a lemma in Proofs/Options.v. *)
 From Coq Require Import Permutation.
-From DivanV Require Import Base.Res Model.Options Proofs.Options Model.RunnerConfig Proofs.RunnerConfig Model.Filter Model.TreeBuild Proofs.TreeBuild.
+From DivanV Require Import Base.Res Model.Options Proofs.Options Model.RunnerConfig Proofs.RunnerConfig Model.Filter Model.TreeBuild Proofs.TreeBuild Proofs.TreeGroups.
 Local Open Scope N_scope.
 
 (** For every nesting depth ([groups] = the options of the nodes on the path
@@ -243,7 +243,8 @@ Theorem C15_tree_from_benches : forall (paths : list (list str)),
 Proof. exact from_benches_spec. Qed.
 Print Assumptions C15_tree_from_benches.
 
-(** PARTIAL.  Full statement (checked on every run by the boolean
+(** Kept for reference; the full statement is now [C15_tree_groups_shape] /
+    [C15_options_on_tree_spec] below.  Formerly: PARTIAL.  Full statement (checked on every run by the boolean
     specification of the stream [tree-build-options], not yet proved):
       for all [paths], [groups], options and [runner], and every benchmark [i]
       with module path [p], [options_on_tree runner gopt bopt (build_tree paths groups)]
@@ -261,3 +262,26 @@ Theorem C15_tree_groups_shape_partial : forall (paths : list (list str)) (groups
   /\ uniq (build_tree paths groups).
 Proof. exact build_tree_shape. Qed.
 Print Assumptions C15_tree_groups_shape_partial.
+
+(** Full: in any registration order of the benchmarks and the groups, the
+    chain of (module, group) pairs above every benchmark of the built tree is the
+    specification's — level [k] of its module path [p] carries the LAST registered
+    group whose module path is the first [k-1] components of [p] and whose raw
+    name is component [k] up to an [r#] prefix, or none — provided no two module
+    names differ by an [r#] prefix only. *)
+Theorem C15_tree_groups_shape : forall (paths : list (list str)) (groups : list (list str * str)),
+  no_raw_twins paths ->
+  Permutation (leaf_chains (build_tree paths groups)) (spec_chains_from groups 0 paths).
+Proof. exact tree_groups_shape. Qed.
+Print Assumptions C15_tree_groups_shape.
+
+(** Hence the options every benchmark gets when [run_tree] walks the built
+    tree are those of its nearest enclosing groups, resolved field-wise
+    (runner, benchmark, innermost .. outermost group). *)
+Theorem C15_options_on_tree_spec : forall (runner : options) (gopt bopt : nat -> option options)
+  (paths : list (list str)) (groups : list (list str * str)),
+  no_raw_twins paths ->
+  Permutation (options_on_tree runner gopt bopt (build_tree paths groups))
+              (spec_options_from runner groups gopt bopt 0 paths).
+Proof. exact options_on_tree_correct. Qed.
+Print Assumptions C15_options_on_tree_spec.
